@@ -52,7 +52,7 @@ def run(ctx):
     r = tlc(ctx, "Trace_Pairing", TR % path, "tr_pairing", workers=1,
             timeout=1500)
     if not r["ok"]:
-        m = re.search(r'"PAIRING_MISMATCH_AT_LINE", (\d+)', r["out"])
+        m = re.search(r'"PAIRING_MISMATCH_AT_LINE"\s*,\s*(\d+)', r["out"])
         if not m:
             raise Infra("Trace_Pairing failed:\n" + r["out"][-2000:])
         ln = lines[int(m.group(1)) - 1]
